@@ -24,12 +24,14 @@ from vf.oracle import cons
 from vf.runner import Violation
 
 EPS = np.finfo(float).eps
-# eps-multiples of the rounding scale |M||a| + |bias| + |passive| + |rhs terms| + |J|'(|f| + D(|J|(|a|+|a0|)+|aref|));
-# calibrated on the unchanged tree (seeds 1-5 x 1200 cases): worst observed ~3e2 (continuous), ~2e3 (discrete, extra
-# solve with M - h dF/dv and division by h).
-K_CONT = 5e4
-K_DISC = 2e5
-K_EFC = 1e4      # efc_force inverse vs forward in eps units of |f| + D(|J|(|a|+|a0|) + |aref|): worst observed ~50
+# eps-multiples of the rounding scale |M||a| + |bias| + |passive| + |rhs terms| + |J|'(|f| + D(|J|(|a|+|a0|)+|aref|)) (the
+# discrete variant multiplies the scale by cond(M): its acceleration is converted by a solve with the inertia).
+# Calibrated on the unchanged tree (quick seeds 1-3 at 2x budget + thorough seeds 1,2; ~20000 cases): worst observed
+# cont 993, disc 3381, efc 15, efc_disc 2299, fwdinv 36.
+K_CONT = 1e5
+K_DISC = 4e5
+K_EFC = 1e4      # efc_force inverse vs forward in eps units of |f| + D(|J|(|a|+|a0|) + |aref|)
+K_EFC_D = 2e5    # same for the discrete variant (scale multiplied by cond(M))
 C_REP = 2.0
 
 
@@ -62,7 +64,7 @@ def main(ck):
                     'noslip_iterations = 0 (documented as not solving a single optimisation problem)',
                     'dual solver on sparse storage excluded for models with reduced inertia sparsity (known finding '
                     'C10/computeY-simple-dof)', 'sleep disabled, no flex']
-  worst = dict(cont=0.0, disc=0.0, efc=0.0, fwdinv=0.0)
+  worst = dict(cont=0.0, disc=0.0, efc=0.0, efc_disc=0.0, fwdinv=0.0)
   ITER = 100 if ck.quick else 200
 
   def test(case):
@@ -242,8 +244,8 @@ def main(ck):
         if nefc and solver != PGS:
           f_inv = np.array(d4.efc_force, dtype=np.float64)[:nefc]
           e = float(np.linalg.norm(f_inv - f_fwd) / (EPS * condM * np.linalg.norm(fs + P.D * (aJ @ (np.abs(ad) + vs))) + 1e-300))
-          worst['efc'] = max(worst['efc'], e)
-          if e > K_EFC:
+          worst['efc_disc'] = max(worst['efc_disc'], e)
+          if e > K_EFC_D:
             raise Violation('%s: efc_force of the discrete inverse differs from the forward one: |df| = %.6g (%.3g eps)' % (
                 tag, np.linalg.norm(f_inv - f_fwd), e), bucket='inverse-discrete-efc')
         labels.add('discrete')
@@ -258,7 +260,7 @@ def main(ck):
     ck.case(nontrivial=nt, key=case.key(), sample=case.sample(kinds=sorted(kinds), **info) if nt else None, labels=labs)
 
   ck.run_hypothesis(test, gc.cases(max_bodies=5 if ck.quick else 7), ck.budget(900, 8000), name='fwdinv')
-  ck.extra['tolerances'] = dict(K_CONT=K_CONT, K_DISC=K_DISC, K_EFC=K_EFC, C_REP=C_REP)
+  ck.extra['tolerances'] = dict(K_CONT=K_CONT, K_DISC=K_DISC, K_EFC=K_EFC, K_EFC_D=K_EFC_D, C_REP=C_REP)
   ck.extra['worst_observed_eps'] = {k: float('%.4g' % v) for k, v in worst.items()}
 
 
